@@ -27,7 +27,7 @@ fn any_pa(flag: bool) -> Pa {
 // C02 / C11 / C17  one tick of the counter: exact transition relation
 // =====================================================================
 
-// @harness prop=C02,C11,C17 tier=quick timeout=120
+// @harness prop=C02,C11,C17,C03 tier=quick timeout=120
 // @about any counter state with acc < 2^24 (last arbitrary), any increment 0..=10*2^24+64 (every increment a documented sample-rate/time pair can produce): acc' = (acc+inc) mod 2^24; the rollover flag is raised iff acc+inc >= 2^24 (the cycle completed on this tick), never cleared by tick; no arithmetic overflow (Kani built-in checks)
 #[kani::proof]
 fn c02_tick_relation() {
@@ -97,7 +97,9 @@ fn c11_reset_and_flag() {
 fn c03_index_fraction_split() {
     let acc: u32 = kani::any();
     kani::assume(acc <= MASK);
-    let pa = Pa::verif_from_parts(1000.0, acc, acc, 0, false);
+    let last: u32 = kani::any(); // arbitrary: set_phase() leaves it at 0 while the counter is not
+    kani::assume(last <= MASK);
+    let pa = Pa::verif_from_parts(1000.0, acc, last, 0, false);
     let idx = pa.index();
     let fr = pa.fraction();
     vassert!(idx == (acc >> 14) as usize, "C03/index/top-bits");
